@@ -25,13 +25,14 @@ type Ptr struct {
 }
 
 type Val struct {
-	S   string // SMT term
-	P   *Ptr   // static pointer description (pointer-typed values)
-	Tup []Val
-	Fn  *ssa.Function // function value (static)
-	Bnd []Val         // closure bindings
-	Nm  string        // callback parameter name, when the value is a func-typed parameter
-	Box string        // interface values: the term that was boxed, when statically known
+	S       string // SMT term
+	P       *Ptr   // static pointer description (pointer-typed values)
+	Tup     []Val
+	Fn      *ssa.Function // function value (static)
+	Bnd     []Val         // closure bindings
+	Nm      string        // callback parameter name, when the value is a func-typed parameter
+	Box     string        // interface values: the term that was boxed, when statically known
+	BoxSort string        // SMT sort of Box
 }
 
 type State struct {
@@ -60,6 +61,7 @@ type Obligation struct {
 	Expect string // "unsat" (proof obligation) or "sat" (cover)
 	Fn     string
 	Note   string
+	Hyp    bool // not part of the claim (kind filter) but a hypothesis of claimed obligations
 	// results
 	Verdict string
 	Solver  string
@@ -156,6 +158,16 @@ type FnTrans struct {
 	autoPhi          map[*ssa.BasicBlock]*ssa.Phi
 	ptrTerms         []ptrTerm
 	ghostHit         map[*Clause]bool
+	collectUnlocked  *[]string // while evaluating a callee's requires: lock components it needs unlocked (it acquires them)
+	tpEvents         []tpEvent
+	deferSite        ssa.Instruction
+}
+
+// tpEvent: an acquire / release of a lock component at an instruction (two-phase check).
+type tpEvent struct {
+	at       ssa.Instruction
+	comp     string
+	acq, rel bool
 }
 
 type ptrTerm struct {
